@@ -965,14 +965,16 @@ func TestC17(t *testing.T) {
 	n := r.N(6000, 150000)
 	r.Cases(n, 0, func(idx int) { runCase(r, idx) })
 	r.Assume("the scripted L1 node is well-behaved as the property's quantifier states: finalised height monotone and <= latest; logs reorged only above the finalised height; " +
-		"a log delivered to the running client is reorged only while a subscription exists and its removal notice is then delivered; all removal notices of a reorg precede the new branch's logs; " +
-		"the node never answers a finalised height >= the block of a removal notice still untaken in the client's channel")
-	r.Assume("'delivered' = returned by FilterStateUpdate or taken by the client from its subscription channel (FIFO; counted as sent - len(channel) from inside the client goroutine); logs mined while no subscription is active are lost")
+		"a log delivered to the running client is reorged only while a subscription exists and its removal notice is then delivered; all removal notices of a reorg precede the new branch's logs")
+	r.Assume("causality: the node never answers a finalised height >= the block of a removal notice that the client has not yet read from its channel, EXCEPT for notices that were already in the channel when the client " +
+		"verifiably stopped reading it for an arbitrarily long time (it re-entered WatchStateUpdate after a subscription error, or a FinalisedHeight call failed and it sits in the retry loop): L1 may finalise during such an outage")
+	r.Assume("'delivered' = returned by FilterStateUpdate or taken by the client from its subscription channel (FIFO; counted as sent - len(channel) from inside the client goroutine); removal notices additionally count from the moment they sit in the channel; logs mined while no subscription is active are lost")
 	r.Assume("Blockchain.SetL1Head performs no validation against the local chain, so the local chain is left empty; memory DB")
 	r.Finish("case = random L1 script (pre-existing history with 0-30 logs incl. several per block and logs at L1 block 0, initial finalised below/at/one-below/above logs; then 4-40 ops: mine blocks with 0-3 logs, "+
-		"reorgs of depth 1-40 above the finalised height with removal notices ascending/descending and optionally for never-delivered logs, finalised advances (to latest / exactly at a log / one below / random / +1), "+
-		"subscription errors, failing resubscribes, failing FinalisedHeight, >128-log bursts, client restarts, catch-up chunk sizes 1..1000 and default, failing ChainID/LatestHeight/k-th FilterStateUpdate) "+
-		"run against the real l1.Client.Run (1 ms poll/resubscribe) on a real Blockchain; oracle at every OnNewL1Head: head == highest-L1 (last in block) log among those consumed by the client, not reported removed, at or below the finalised height last told, "+
-		"stored head == announced head, Starknet block number never decreases; after an undisturbed catch-up scan: head == highest finalised canonical log <= latest told; at logical quiescence (channel empty + two further polls): stored head == designated log; "+
-		"L1-head feed carries recorded heads only; race detector on; distinct = distinct (chunk bucket, instances, reorgs, sub errors, head sequence) with at least one head", 100)
+		"reorgs of depth 1-40 above the finalised height with removal notices ascending/descending and optionally for never-delivered logs, finalised advances (to latest / exactly at a log / one below / random / +1, also between model change and physical delivery), "+
+		"subscription errors, failing resubscribes, failing FinalisedHeight, reorg+connection drop+outage, reorg delivered while the client retries the finalised query, >128-log bursts (back-pressure), deliveries paced so that polls fall between the items of one reorg, "+
+		"client restarts on the same database, catch-up chunk sizes 1..1000 and default, failing ChainID/LatestHeight/k-th FilterStateUpdate) "+
+		"run against the real l1.Client.Run (1 ms poll/resubscribe) on a real Blockchain; oracle at every OnNewL1Head (inside the client goroutine): head == highest-L1 (last in block) log among those consumed by the client, without a removal notice read or sitting in its channel, at or below the finalised height last told; "+
+		"stored head == announced head; Starknet block number never decreases (also across restarts); after an undisturbed catch-up scan: head == highest finalised canonical log <= latest told; at logical quiescence (script paused, channel empty, two further successful polls): stored head == designated log; "+
+		"L1-head feed carries recorded heads only, in order; race detector on; no wall clock in any verdict (40 s watchdogs -> inconclusive); distinct = distinct (chunk bucket, instances, reorgs, sub errors, head sequence) with at least one head", 100)
 }
